@@ -217,6 +217,11 @@ func packDomainName(s string, msg []byte, off int, compression compressionMap, c
 		return len(msg), ErrFqdn
 	}
 
+	// Only names longer than this in presentation format can exceed the wire limit.
+	if ls > maxDomainNameWireOctets-1 && escapedNameLen(s)+1 > maxDomainNameWireOctets {
+		return len(msg), ErrLongDomain
+	}
+
 	// Each dot ends a segment of the name.
 	// We trade each dot byte for a length byte.
 	// Except for escaped dots (\.), which are normal dots.
